@@ -656,6 +656,8 @@ class PortMachine(Machine):
             return "noop"
         if not all(isinstance(v, int) and 1 <= v <= MAXP for v in vals):
             return "noop"
+        if slot["op"] in ("eq", "neq"):
+            vals = list(dict.fromkeys(vals))  # repeated operands: see the `dups` configuration
         if op.get("as_") == "live":
             # the usual way to change operands: take the list the view returns, edit it, assign it
             arg = p.items
